@@ -220,6 +220,61 @@ GOLDEN["golden_loader.json"] = (LOADER_SPEC, [
 ])
 
 
+GRAPH_SPEC = {
+    "calls": [("map.get", r"HashMap::<K, V, S(, A)?>::get(_mut)?$"), ("map.insert", r"HashMap::<K, V, S(, A)?>::insert$"),
+              ("map.remove", r"HashMap::<K, V, S(, A)?>::remove$"), ("map.entry", r"HashMap::<K, V, S(, A)?>::entry$"),
+              ("map.contains_key", r"HashMap::<K, V, S(, A)?>::contains_key$"), ("map.keys", r"HashMap::<K, V, S(, A)?>::keys$"),
+              ("set.insert", r"HashSet::<T, S(, A)?>::insert$"), ("set.remove", r"HashSet::<T, S(, A)?>::remove$"),
+              ("set.contains", r"HashSet::<T, S(, A)?>::contains$"), ("set.is_empty", r"HashSet::<T, S(, A)?>::is_empty$"),
+              ("extend", r"::extend$"), ("or_insert_with", r"::or_insert_with$"), ("retain", r"::retain$"),
+              ("push", r"Vec::<T, A>::push$"), ("pop", r"Vec::<T, A>::pop$"), ("reverse", r"::reverse$"), ("rev", r"::rev$"),
+              ("sort_by_key", r"::sort_by_key$"), ("is_empty", r"::is_empty$"), ("len", r"::len$"),
+              ("query", r"graph::(DepGraph|SrcGraph)::<Id>::query$"), ("add", r"graph::(DepGraph|SrcGraph)::<Id>::add$"),
+              ("roots", r"graph::(DepGraph|SrcGraph)::<Id>::roots$"), ("order", r"graph::DepGraph::<Id>::order$"),
+              ("nodes", r"graph::(DepGraph|SrcGraph)::<Id>::nodes$"), ("reverse_graph", r"graph::DepGraph::<Id>::reverse$"),
+              ("dfs_forward", r"::dfs_forward$"), ("dfs_backward", r"::dfs_backward$"), ("SccGraph::new", r"SccGraph::<Id>::new$"),
+              ("Kosaraju::new", r"Kosaraju::<'a, Id>::new$"), ("Kosaraju::run", r"Kosaraju::<'a, Id>::run$"),
+              ("top", r"SccGraph::<Id>::top$"), ("release", r"SccGraph::<Id>::release$"),
+              ("source_order", r"::source_order$"), ("alloc", r"::alloc$"), ("insert_new", r"::insert_new$"),
+              ("remove", r"ArenaAssoc.*::remove$|::remove$"), ("ready", r"BindingContext::ready$"), ("traversal", r"BindingContext::traversal$"),
+              ("topological_order", r"BindingContext::topological_order$"), ("from_bindings", r"BindingContext::from_bindings$"),
+              ("alloc_scoped_term", r"::alloc_scoped_term$"), ("collect_candidates", r"BlockCandidateCollector::<'a>::collect$"),
+              ("BlockScope::new", r"BlockScope::new$"), ("candidate.resolve", r"MobileCandidate::resolve$"), ("resolve", r"Resolve>::resolve$"),
+              ("binding_id", r"::binding_id$"), ("build", r"ContextElaboration::<'a>::build$"),
+              ("err", r"ResolveError::\\w+$"), ("any", r"::any$"), ("is_some_and", r"::is_some_and$"), ("first", r"::first$"),
+              ("next", r"Iterator::next$|::next$"), ("filter", r"::filter$"), ("try_fold", r"::try_fold$"), ("fold", r"::fold$"),
+              ("variant", r"ContextNode::\\w+$")],
+    "ctors": [r"syntax::(Abs|Let|RecGroup|RecursiveDefinition|Block)$"],
+    "assign": [],
+    "branch_ifs": True,
+    "branch_matches": True,
+    "returns": True,
+}
+_G = "zydeco_utils::graph::"
+GOLDEN["golden_graph.json"] = (GRAPH_SPEC, [
+    ("DepGraph::add", _G + "DepGraph::<Id>::add", "seqwhole"),
+    ("DepGraph::query", _G + "DepGraph::<Id>::query", "seqwhole"),
+    ("DepGraph::order", _G + "DepGraph::<Id>::order", "seqwhole"),
+    ("DepGraph::nodes", _G + "DepGraph::<Id>::nodes", "seqwhole"),
+    ("DepGraph::reverse", _G + "DepGraph::<Id>::reverse", "seqwhole"),
+    ("SrcGraph::add", _G + "SrcGraph::<Id>::add", "seqwhole"),
+    ("SrcGraph::query", _G + "SrcGraph::<Id>::query", "seqwhole"),
+    ("SrcGraph::roots", _G + "SrcGraph::<Id>::roots", "seqwhole"),
+    ("Kosaraju::new", _G + "Kosaraju::<'a, Id>::new", "seqwhole"),
+    ("Kosaraju::run", _G + "Kosaraju::<'a, Id>::run", "seqwhole"),
+    ("Kosaraju::dfs_forward", _G + "Kosaraju::<'a, Id>::dfs_forward", "seqwhole"),
+    ("Kosaraju::dfs_backward", _G + "Kosaraju::<'a, Id>::dfs_backward", "seqwhole"),
+    ("SccGraph::new", _G + "SccGraph::<Id>::new", "seqwhole"),
+    ("SccGraph::top", _G + "SccGraph::<Id>::top", "seqwhole"),
+    ("SccGraph::release", _G + "SccGraph::<Id>::release", "seqwhole"),
+    ("BindingContext::from_bindings", "zydeco_surface::scoped::arena::BindingContext::from_bindings", "seqwhole"),
+    ("BindingContext::ready", "zydeco_surface::scoped::arena::BindingContext::ready", "seqwhole"),
+    ("BindingContext::topological_order", "zydeco_surface::scoped::arena::BindingContext::topological_order", "seqwhole"),
+    ("ContextElaboration::build", "zydeco_surface::scoped::blocks::ContextElaboration::<'a>::build", "seqwhole"),
+    ("resolve_block", "zydeco_surface::scoped::blocks::<impl zydeco_surface::scoped::resolver::Resolver<'_>>::resolve_block", "seqwhole"),
+])
+
+
 def compute(facts, fname):
     spec, fns = GOLDEN[fname]
     out = {}
